@@ -48,6 +48,7 @@ def classes():
         p = Parameter('configured parameter', FloatRange(), default=0, readonly=False)
         q = Parameter('second configured parameter', FloatRange(), default=0, readonly=False)
         wfail = Property('which write method fails', StringType(), default='')
+        slow = Property('duration of one hardware read [s]', FloatRange(), default=0.0)
 
         def _touch(self):
             for attr in ('a1', 'a2'):
@@ -95,10 +96,16 @@ def classes():
                 raise HardwareError(f'{self.name} can not write q')
             return value
 
+    def slow_read(self):
+        EV.append(('read', self.name))
+        if self.slow:
+            from vf.engines import schedx
+            schedx.vsleep(self.slow)
+            EV.append(('read-done', self.name))
+        return 1.0
+
     class Poll(Mixin, Readable):
-        def read_value(self):
-            EV.append(('read', self.name))
-            return 1.0
+        read_value = slow_read
 
         def doPoll(self):
             EV.append(('poll', self.name))
@@ -157,6 +164,10 @@ def classes():
         def communicate(self, command):
             return command
 
+    class IoQuiet(Io):
+        """a communicator that does not poll anything itself: its poll thread exists only for its users"""
+        enablePoll = False
+
     class WithIo(HasIO, Mixin, Readable):
         ioClass = Io
 
@@ -165,9 +176,7 @@ def classes():
             t = self.io         # the communicator (given by name or created from the uri) is an attachment as well
             EV.append(('attach', self.name, 'io', t.name, bool(t.earlyInitDone), bool(t.initModuleDone)))
 
-        def read_value(self):
-            EV.append(('read', self.name))
-            return 1.0
+        read_value = slow_read
 
     class Pin(Pinata):
         def earlyInit(self):
@@ -189,7 +198,7 @@ def classes():
         def scanModules(self):
             yield 'pm', {'cls': Poll, 'description': 'from pinata', 'a1': 'm0', 'touch': 'init'}
 
-    _classes.update(Poll=Poll, NoPoll=NoPoll, Other=Other, Typed=Typed, Io=Io, WithIo=WithIo, Pin=Pin)
+    _classes.update(Poll=Poll, NoPoll=NoPoll, Other=Other, Typed=Typed, Io=Io, IoQuiet=IoQuiet, WithIo=WithIo, Pin=Pin)
     return _classes
 
 
@@ -198,7 +207,7 @@ def build_cfg(case):
     cfg = {}
     for name, m in case['modules'].items():
         d = {'cls': C[m['cls']]}
-        for k in ('a1', 'a2', 'a3', 'touch', 'fail', 'uri', 'io', 'wfail'):
+        for k in ('a1', 'a2', 'a3', 'touch', 'fail', 'uri', 'io', 'wfail', 'slow'):
             if m.get(k):
                 d[k] = m[k]
         if m.get('q') is not None:
@@ -221,7 +230,9 @@ def execute(case, prefix=()):
     schedx.install()
     frappy.io.HasIO.ioDict.clear()
     del EV[:]
-    sched = schedx.Scheduler(list(prefix), max_steps=20000, horizon=200.0)
+    # scenarios that let virtual time pass before the shutdown need a clock that moves with every reading (a poll loop
+    # waiting exactly until a due time must see it passed)
+    sched = schedx.Scheduler(list(prefix), max_steps=20000, horizon=200.0, tick=1e-4 if case.get('shutdown_after') else 0.0)
     out = {}
 
     def body():
@@ -236,7 +247,12 @@ def execute(case, prefix=()):
         EV.append(('ready',))
         out['modules'] = list(node.secnode.modules)
         out['resolved'] = {n: {k: v.name for k, v in m.attachedModules.items()} for n, m in node.secnode.modules.items()}
+        if case.get('shutdown_after'):
+            schedx.vsleep(case['shutdown_after'])       # the node serves for a while: the shutdown arrives in the middle of a poll round
+        EV.append(('shutdown-request',))
         node.secnode.shutdown_modules()
+        if case.get('shutdown_after'):
+            schedx.vsleep(6.0)          # a poll thread that was not really stopped shows itself
         EV.append(('down',))
     # a followed attachment cycle ends in RecursionError inside frappy; a lower limit only shortens that (slow) path:
     # the deepest legitimate call chain of these configurations is far below it
@@ -369,6 +385,15 @@ def judge(case, ev, out, x):
     downs = [i for i, e in enumerate(ev) if e[0] == 'shutdown']
     if stops and downs and max(stops) > min(downs):
         viol.append(('shutdown-before-poll-threads-stopped', f'stopPollThread@{max(stops)} after shutdownModule@{min(downs)}'))
+    # nothing is polled any more once modules are being shut down (the read in flight when the request came may finish)
+    # (a poll fetched just before the stop request, and a read in flight, may still run: stopPollThread only asks, and
+    # joinPollThread gives up after 0.5 s - but no new poll may START once modules are being shut down)
+    if downs:
+        late = [e for i, e in enumerate(ev) if i > min(downs) and e[0] in ('read', 'poll')]
+        if late:
+            viol.append(('poll-started-after-modules-were-shut-down',
+                         f'{late[:4]} started after the first shutdownModule; events from the request on: '
+                         f'{ev[idx.get(("shutdown-request",), [0])[0]:][:16]}'))
     for n in names:
         d = idx.get(('shutdown', n), [])
         if len(d) != 1:
@@ -453,6 +478,29 @@ SPECIAL = [
                             'm2': {'cls': 'WithIo', 'uri': 'x://2', 'touch': 'init'}}),
     ('user-before-explicit-io-owner', {'m0': {'cls': 'Poll', 'a1': 'm1', 'touch': 'init'}, 'm1': {'cls': 'WithIo', 'io': 'io1', 'touch': 'init'},
                                        'io1': {'cls': 'Io'}}),
+    # unexported users of a communicator, in every position relative to it
+    ('unexported-io-user', {'io1': {'cls': 'Io'}, 'm0': {'cls': 'WithIo', 'io': 'io1', 'export': False, 'p': 1.5},
+                            'm1': {'cls': 'WithIo', 'io': 'io1', 'p': 2.5}}),
+    ('unexported-io-user-last', {'io1': {'cls': 'Io'}, 'm1': {'cls': 'WithIo', 'io': 'io1', 'p': 2.5},
+                                 'm0': {'cls': 'WithIo', 'io': 'io1', 'export': False, 'p': 1.5, 'q': 3.5}}),
+    ('unexported-io-user-first', {'m0': {'cls': 'WithIo', 'io': 'io1', 'export': False, 'p': 1.5}, 'io1': {'cls': 'Io'},
+                                  'm1': {'cls': 'WithIo', 'io': 'io1'}}),
+    ('only-unexported-io-users', {'io1': {'cls': 'Io'}, 'm0': {'cls': 'WithIo', 'io': 'io1', 'export': False, 'p': 1.5},
+                                  'm1': {'cls': 'WithIo', 'io': 'io1', 'export': False, 'p': 2.5}}),
+    ('unexported-user-of-quiet-io', {'io1': {'cls': 'IoQuiet'}, 'm0': {'cls': 'WithIo', 'io': 'io1', 'export': False, 'p': 1.5},
+                                     'm1': {'cls': 'WithIo', 'io': 'io1', 'p': 2.5}}),
+    ('only-unexported-users-of-quiet-io', {'io1': {'cls': 'IoQuiet'}, 'm0': {'cls': 'WithIo', 'io': 'io1', 'export': False, 'p': 1.5},
+                                           'm1': {'cls': 'WithIo', 'io': 'io1', 'export': False, 'p': 2.5}}),
+    ('quiet-io-declared-last', {'m0': {'cls': 'WithIo', 'io': 'io1', 'export': False, 'p': 1.5}, 'm1': {'cls': 'WithIo', 'io': 'io1', 'p': 2.5},
+                                'io1': {'cls': 'IoQuiet'}}),
+    ('unexported-uri-user', {'m0': {'cls': 'WithIo', 'uri': 'x://1', 'export': False, 'p': 1.5}, 'm1': {'cls': 'WithIo', 'uri': 'x://1', 'p': 2.5}}),
+    ('unexported-io-and-user', {'io1': {'cls': 'Io', 'export': False}, 'm0': {'cls': 'WithIo', 'io': 'io1', 'export': False, 'p': 1.5},
+                                'm1': {'cls': 'Poll', 'p': 2.5}}),
+    # a shutdown request arriving in the middle of a poll round of slow modules (the poll interval is 5 s, a read takes 1 s)
+    *[(f'slow-readers-one-thread@{t}', {'m0': {'cls': 'WithIo', 'uri': 'x://1', 'slow': 1.0}, 'm1': {'cls': 'WithIo', 'uri': 'x://1', 'slow': 1.0},
+                                          'm2': {'cls': 'WithIo', 'uri': 'x://1', 'slow': 1.0}}) for t in (5.5, 6.5, 7.5, 8.5, 9.5, 10.5, 11.5)],
+    *[(f'slow-readers-own-threads@{t}', {'m0': {'cls': 'Poll', 'slow': 1.0}, 'm1': {'cls': 'Poll', 'slow': 2.0, 'a1': 'm0', 'touch': 'init'}})
+      for t in (5.5, 6.5)],
     ('two-owners-of-one-uri-user-first', {'m0': {'cls': 'Poll', 'a1': 'm2', 'a2': 'm1', 'touch': 'init'},
                                           'm1': {'cls': 'WithIo', 'uri': 'x://1', 'touch': 'init'},
                                           'm2': {'cls': 'WithIo', 'uri': 'x://1', 'touch': 'early'}}),
@@ -493,12 +541,19 @@ def shard_fn(shard):
     return part
 
 
+def special_case(name, mods):
+    case = {'kind': 'special', 'name': name, 'modules': mods}
+    if '@' in name:          # <scenario>@<seconds the node serves before the shutdown request>
+        case['shutdown_after'] = float(name.split('@')[1])
+    return case
+
+
 def special_root_fn(shard):
     """default schedule of a special scenario + the first-level prefixes of its schedule tree"""
     from vf.engines import schedx
     name, mods, bound = shard
     part = core.Part()
-    case = {'kind': 'special', 'name': name, 'modules': mods}
+    case = special_case(name, mods)
     _ev, _out, x = run_case(case, part)
     _ev2, _out2, x2 = execute(case)
     if x.trace != x2.trace:
@@ -515,7 +570,7 @@ def special_fn(shard):
     from vf.engines import schedx
     name, mods, bound, prefix = shard
     part = core.Part()
-    case = {'kind': 'special', 'name': name, 'modules': mods}
+    case = special_case(name, mods)
 
     def ex(pfx):
         _ev, _out, x = run_case(case, part, pfx)
